@@ -140,7 +140,8 @@ func (k c19Combo) allowed() []string {
 }
 
 // c19One feeds one synthetic view to a fresh player runner and returns the calls it made and when.
-func c19One(k c19Combo) (calls []spyCall, delivered int64, waited time.Duration) {
+// patience is how long after the thinking time the spy is watched (an upper bound that only ends the wait).
+func c19One(k c19Combo, patience time.Duration) (calls []spyCall, delivered int64, waited time.Duration) {
 	pr := actor.NewPlayerRunner("me")
 	sp := &spyAdapter{noForward: true, name: "me", idx: 0}
 	a := actor.NewActor()
@@ -156,18 +157,18 @@ func c19One(k c19Combo) (calls []spyCall, delivered int64, waited time.Duration)
 	sp.gs = t.State.GameState
 	delivered = h.Mono()
 	a.UpdateTableState(t)
-	wait := 50 * time.Millisecond
-	if k.at > 0 {
-		wait = time.Duration(k.at)*time.Second + 400*time.Millisecond
-	}
+	wait := time.Duration(k.at)*time.Second + patience
 	dl := time.Now().Add(wait)
 	for time.Now().Before(dl) {
-		if len(sp.snapshotCalls()) > 0 && k.at == 0 {
+		if len(sp.snapshotCalls()) > 0 && (k.at == 0 || patience > time.Second) {
 			break
 		}
 		time.Sleep(2 * time.Millisecond)
 	}
 	time.Sleep(3 * time.Millisecond)
+	if patience > time.Second {
+		time.Sleep(100 * time.Millisecond) // room for a second, unwanted call
+	}
 	return sp.snapshotCalls(), delivered, wait
 }
 
@@ -247,6 +248,7 @@ func c19DecisionTable(c *h.Ctx, part, parts int) {
 	}
 	var mu sync.Mutex
 	var judged, withCall int64
+	var again []c19Combo
 	sem := make(chan struct{}, 1500)
 	var wg sync.WaitGroup
 	for i, k := range combos {
@@ -261,7 +263,20 @@ func c19DecisionTable(c *h.Ctx, part, parts int) {
 		go func(k c19Combo) {
 			defer wg.Done()
 			defer func() { <-sem }()
-			calls, delivered, _ := c19One(k)
+			patience := 50 * time.Millisecond
+			if k.at > 0 {
+				patience = 400 * time.Millisecond
+			}
+			calls, delivered, _ := c19One(k, patience)
+			if exp := c19Decide(k.allowed(), k.event, k.pos, k.status); exp.exact && exp.act != "" && len(calls) == 0 {
+				// nothing yet: on a loaded machine the runner's timer may simply be late (found by vp check: 1 of
+				// 2 400 entries with a thinking time of 1 s had not acted after 1.4 s while 19 other checks ran).
+				// The entry is judged again below, alone and with a patience of 15 s; silence then is a violation.
+				mu.Lock()
+				again = append(again, k)
+				mu.Unlock()
+				return
+			}
 			if c19Judge(c, &mu, k, calls, delivered, "decision-table") {
 				atomic.AddInt64(&judged, 1)
 				if len(calls) > 0 {
@@ -271,6 +286,19 @@ func c19DecisionTable(c *h.Ctx, part, parts int) {
 		}(k)
 	}
 	wg.Wait()
+	for _, k := range again {
+		if c.Failed() {
+			break
+		}
+		calls, delivered, _ := c19One(k, 15*time.Second)
+		if c19Judge(c, &mu, k, calls, delivered, "decision-table") {
+			judged++
+			if len(calls) > 0 {
+				withCall++
+			}
+		}
+	}
+	c.Count("decision_table_entries_judged_again_with_more_patience", int64(len(again)))
 	c.Count("decision_table_entries_judged", judged)
 	c.Count("decision_table_entries_with_a_call", withCall)
 	c.Feature(fmt.Sprintf("decision-table-part-%d/%d", part, parts))
@@ -337,10 +365,10 @@ func c19OpenedThenPlaying(c *h.Ctx) {
 			sp.gs = t2.State.GameState
 			t0 := h.Mono()
 			a.UpdateTableState(t2)
-			c19AwaitCalls(sp, t0, 1, 1200*time.Millisecond, 5*time.Second)
+			c19AwaitCalls(sp, t0, 1, 1200*time.Millisecond, 12*time.Second)
 			calls := sp.snapshotCalls()
 			if len(calls) != 1 || calls[0].Act != ev.want {
-				c.Violate("C19/no-automatic-action/state-first-seen-on-an-opened-snapshot", fmt.Sprintf("%s runner, %s allowed %v: the state was first delivered on a snapshot with status opened, then on the playing snapshot; 5 s after that the runner has submitted %v (expected one %s)", status, ev.event, ev.allowed, calls, ev.want), nil)
+				c.Violate("C19/no-automatic-action/state-first-seen-on-an-opened-snapshot", fmt.Sprintf("%s runner, %s allowed %v: the state was first delivered on a snapshot with status opened, then on the playing snapshot; 12 s after that the runner has submitted %v (expected one %s)", status, ev.event, ev.allowed, calls, ev.want), nil)
 				return
 			}
 			if status != "suspended" && time.Duration(calls[0].Mono-t0) < time.Second-3*time.Millisecond {
@@ -373,7 +401,7 @@ func c19ManualAnswers(c *h.Ctx) {
 			}
 		}
 		if len(auto) == 0 {
-			c.Violate("C19/no-automatic-action/after-a-manual-answer", fmt.Sprintf("%s: the player was asked again and stayed silent; 5 s later (thinking time 1 s) nothing has been submitted for him", what), calls)
+			c.Violate("C19/no-automatic-action/after-a-manual-answer", fmt.Sprintf("%s: the player was asked again and stayed silent; 12 s later (thinking time 1 s) nothing has been submitted for him", what), calls)
 			return false
 		}
 		if el := time.Duration(auto[0].Mono - askedAt); el < time.Second-5*time.Millisecond {
@@ -403,7 +431,7 @@ func c19ManualAnswers(c *h.Ctx) {
 		sp.gs = t2.State.GameState
 		asked := h.Mono()
 		a.UpdateTableState(t2)
-		c19AwaitCalls(sp, asked, 1, 1200*time.Millisecond, 5*time.Second)
+		c19AwaitCalls(sp, asked, 1, 1200*time.Millisecond, 12*time.Second)
 		if !judge("answered by hand in hand 1, asked again in hand 2", sp.snapshotCalls(), asked, "check") {
 			return
 		}
@@ -433,7 +461,7 @@ func c19ManualAnswers(c *h.Ctx) {
 			<-done
 		}
 		pr.Call()
-		c19AwaitCalls(sp, asked, 1, 1200*time.Millisecond, 5*time.Second)
+		c19AwaitCalls(sp, asked, 1, 1200*time.Millisecond, 12*time.Second)
 		if !judge("asked again while his manual call was still on its way", sp.snapshotCalls(), asked, "check") {
 			return
 		}
@@ -453,7 +481,7 @@ func c19ManualAnswers(c *h.Ctx) {
 			sp.gs = t.State.GameState
 			asked := h.Mono()
 			a.UpdateTableState(t)
-			c19AwaitCalls(sp, asked, 1, 1100*time.Millisecond, 5*time.Second)
+			c19AwaitCalls(sp, asked, 1, 1100*time.Millisecond, 12*time.Second)
 			if !judge(fmt.Sprintf("idle, resumed, request %d left unanswered", k+1), sp.snapshotCalls(), asked, "check") {
 				return
 			}
@@ -477,7 +505,7 @@ func c19ManualAnswers(c *h.Ctx) {
 		sp2.gs = t2.State.GameState
 		n1 := len(sp1.snapshotCalls())
 		a.UpdateTableState(t2)
-		c19AwaitCalls(sp2, 0, 1, 20*time.Millisecond, 3*time.Second)
+		c19AwaitCalls(sp2, 0, 1, 20*time.Millisecond, 10*time.Second)
 		if got1, got2 := len(sp1.snapshotCalls())-n1, len(sp2.snapshotCalls()); got2 != 1 || got1 != 0 {
 			c.Violate("C19/no-automatic-action/sent-to-another-table", fmt.Sprintf("the (suspended) player was moved to a second table and asked there: the asking table received %d automatic actions, the table he had left %d", got2, got1), map[string]interface{}{"table-1": sp1.snapshotCalls(), "table-2": sp2.snapshotCalls()})
 			return
